@@ -65,10 +65,15 @@ def write_if_changed(path, text):
 
 
 class CoqLock:
+    """exclusive while make may rewrite .vo files, shared while generated case files are compiled against them"""
+
+    def __init__(self, shared=False):
+        self.mode = fcntl.LOCK_SH if shared else fcntl.LOCK_EX
+
     def __enter__(self):
         os.makedirs(COQ, exist_ok=True)
-        self.f = open(os.path.join(COQ, '.lock'), 'w')
-        fcntl.flock(self.f, fcntl.LOCK_EX)
+        self.f = open(os.path.join(COQ, '.lock'), 'a')
+        fcntl.flock(self.f, self.mode)
         return self
 
     def __exit__(self, *a):
@@ -97,7 +102,8 @@ def coq_make(targets, timeout=1500, jobs=12):
 
 def coqc_file(path, timeout=600):
     """Compiles one stand-alone file against the built development; returns (ok, output)."""
-    rc, out = sh(f'timeout {timeout} coqc -Q theories KV {os.path.relpath(path, COQ)}', cwd=COQ, timeout=timeout + 30)
+    with CoqLock(shared=True):
+        rc, out = sh(f'timeout {timeout} coqc -Q theories KV {os.path.relpath(path, COQ)}', cwd=COQ, timeout=timeout + 30)
     return rc == 0, out
 
 
@@ -201,7 +207,7 @@ class Check:
         """Builds theories/Properties/<module>.vo (and deps) and checks that each listed theorem
         exists and what it assumes.  One obligation per theorem."""
         t = time.time()
-        ok, log = coq_make([f'theories/Properties/{module}.vo'], timeout=timeout)
+        ok, log = coq_make([f'theories/Properties/{module}.vo', 'theories/Model/Corr.vo'], timeout=timeout)
         self.checker_cmds.append(f'make -C coq theories/Properties/{module}.vo  (coq_makefile, full .vo build)')
         if not ok:
             err = coq_first_error(log)
@@ -275,6 +281,8 @@ class Check:
             paths.append(path)
         pending = list(enumerate(paths))
         running = []
+        lock = CoqLock(shared=True)
+        lock.__enter__()
         while pending or running:
             while pending and len(running) < jobs:
                 i, p = pending.pop(0)
@@ -285,6 +293,7 @@ class Check:
             out, _ = pr.communicate()
             res[i] = (pr.returncode == 0, out)
             self._cleanup_case(p)
+        lock.__exit__()
         return res
 
     @staticmethod
